@@ -1,5 +1,7 @@
-"""Per-property check configuration for ./check and gen_manifest.py. Each part
-is one `go test` invocation of an overlay-injected harness inside the rqlite module."""
+"""Check configuration for ./check and gen_manifest.py: one file per property in
+checks.d/<id>.py, each defining CHECK = {...}. Each part is one `go test`
+invocation of an overlay-injected harness inside the rqlite module."""
+import glob, os
 
 def part(name, pkg, run, **kw):
     d = {"name": name, "pkg": pkg, "run": run}
@@ -7,18 +9,21 @@ def part(name, pkg, run, **kw):
     return d
 
 ENGINES = [
-    {"name": "E-ENUM", "path": "/verif/harness", "kind_free_text": "bounded-exhaustive enumeration of inputs/programs/configurations, executed on the real code against a reference model or a differential SQLite oracle", "serves_properties": []},
+    {"name": "E-ENUM", "path": "/verif/harness", "kind_free_text": "bounded-exhaustive enumeration of inputs/programs/configurations, executed on the real code against a reference model or a differential SQLite oracle"},
+    {"name": "E-SEQ", "path": "/verif/harness", "kind_free_text": "explicit-state breadth-first search over operation sequences on fresh real objects (replay prefix + 1 op), canonical state keys, reference model stepped alongside"},
+    {"name": "E-SCHED", "path": "/verif/engine/vsched", "kind_free_text": "controlled cooperative scheduler over real goroutines in a testing/synctest bubble (fake clock) + preemption-bounded DFS over schedules; sync primitives rewritten by go/ast instrumentation of the current tree"},
+    {"name": "E-CRASH", "path": "/verif/engine/vfs", "kind_free_text": "crash-image enumeration: directory image taken at every file-system mutation point of a history run on the real code, each image recovered by the real start-up path"},
+    {"name": "E-CLUSTER", "path": "/verif/harness/system_test", "kind_free_text": "exhaustive operation/fault histories on live in-process clusters with schedule-independent oracles"},
 ]
 
 NOT_APPLICABLE = {}
 
-CHECKS = {
-    "C19": {"level": "model_checking", "engine": "E-ENUM",
-            "technique": "exhaustive small-scope enumeration of credential files x queries on the real CredentialsStore vs reference rule",
-            "text": "Every credentials file of up to 3 entries over a 5x4x5 field alphabet (including omitted fields and duplicate users) is loaded by the real store and asked all 60 (user,password,perm) queries; each decision is compared with the rule in the statement. Exhaustive within that scope (1,010,101 files, 60.6M decisions at thorough).",
-            "note": "Scope bound: <=3 entries, 3 user names, 2 passwords, perms {x,y,all}. JSON decoding by encoding/json is trusted.",
-            "parts": [part("enum", "auth", "^TestVerif_C19$", timeout_quick=300, timeout_thorough=1800)]},
-}
+CHECKS = {}
+_here = os.path.dirname(os.path.abspath(__file__))
+for _f in sorted(glob.glob(os.path.join(_here, "checks.d", "C*.py"))):
+    _ns = {"part": part}
+    exec(compile(open(_f).read(), _f, "exec"), _ns)
+    CHECKS[os.path.basename(_f)[:-3]] = _ns["CHECK"]
 
 for _e in ENGINES:
     _e["serves_properties"] = sorted(p for p, c in CHECKS.items() if c.get("engine") == _e["name"])
